@@ -802,7 +802,10 @@ def opRD (args obs : List String) : P String := do
           if axis == "N" then pure (x, [size], sortL rows.flatten)                           -- axis=None: the flattened array, sorted
           else pure (x, if twoD then [r, c] else [size], (rows.map sortL).flatten)          -- default: the last axis
         | some a => pure (x, if twoD then [r, c] else [size], (alongAxis sortL a rows).flatten)
-      | "transpose" => pure (x, if twoD then [c, r] else [size], if twoD then (transposeL rows).flatten else cs)
+      | "transpose" =>
+        -- axis token "id": the identity permutation is passed as `axes` (nothing moves); "sw": axes=(1,0); "n": no `axes` argument
+        if axis == "id" then pure (x, if twoD then [r, c] else [size], cs)
+        else pure (x, if twoD then [c, r] else [size], if twoD then (transposeL rows).flatten else cs)
       | "diagonal" => pure (x, [(diagL rows).length], diagL rows)
       | "trace" => pure (sumFmt x (diagL rows).length, [], [sumL (diagL rows)])
       | _ => throw s!"RD: fn {fn}"
